@@ -49,6 +49,29 @@ def kind_of_exc(e):
     return ["exc", type(e).__name__, msg[:200]]
 
 
+def py_subtype(t1, t2):
+    """the documented subtype relation on classes and parametrised generics (typing.Any counts as object)"""
+    import typing
+
+    if t1 is typing.Any:
+        t1 = object
+    if t2 is typing.Any:
+        t2 = object
+    if t1 == t2:
+        return True
+    o1, o2 = typing.get_origin(t1), typing.get_origin(t2)
+    if o1 is None and o2 is None:
+        return issubclass(t1, t2)
+    if o2 is None:
+        return issubclass(o1, t2)  # a parametrised generic is below the classes its origin is below
+    if o1 is None:
+        return False  # a plain class is never below a parametrised generic
+    if not issubclass(o1, o2):
+        return False
+    a1, a2 = typing.get_args(t1), typing.get_args(t2)
+    return len(a1) == len(a2) and all(py_subtype(x, y) for x, y in zip(a1, a2))
+
+
 class FnWorld:
     """realises the argument pool and the definitions of one function-level scenario"""
 
@@ -269,6 +292,19 @@ class FnWorld:
         """the second witness of C01: Python's own isinstance against the declared annotation object"""
         t = self.glb[f"T_{mid}_{pname}"]
         saved = list(self.w.pred_calls)  # the harness's own isinstance must not count as a consultation (C20)
+        import typing
+
+        if t is type:
+            t = type[object]  # bare `type` is documented to behave as type[object]
+        if typing.get_origin(t) is type:
+            # C14, documented rule: a passed type matches type[T] exactly when it is a subtype of T
+            if not (isinstance(v, type) or typing.get_origin(v) is not None):
+                return False
+            return py_subtype(v, typing.get_args(t)[0])
+        if self.vid_of.get(id(v)) is not None and self.sc["args"][self.vid_of[id(v)]].get("kind") == "type":
+            # a passed type is keyed as type[v], which is below `object` only among the plain classes (a runtime
+            # protocol may hold of the class object itself; that is not what type-valued dispatch is about)
+            return t is object
         try:
             try:
                 return isinstance(v, t)
